@@ -4,6 +4,8 @@ import importlib
 CHECKS = {
     'C01': ('vlib.chk_sat', 'C01'), 'C02': ('vlib.chk_sat', 'C02'), 'C03': ('vlib.chk_sat', 'C03'),
     'C04': ('vlib.chk_incr', 'C04'),
+    'C05': ('vlib.chk_conf', 'C05'),
+    'C15': ('vlib.chk_rat', 'C15'),
 }
 
 
